@@ -381,6 +381,36 @@ def c_derived(rng):
         if (el is None) != (view[i] is None):
             out.append(V(f'array.getitem/{kind}', f'row {i}', cs.recipe))
             break
+    # elements however obtained - arr[i], iteration, list(), a Series' own iteration - behave like fresh ones:
+    # their quantities are those of the element's own coordinates
+    import spatialpandas as sp
+    bx = gen.box(rng)
+    eff = oracle.norm_box(bx)
+    routes = {'getitem': lambda: [arr[i] for i in range(len(view))], 'iter': lambda: [g for g in arr],
+              'list': lambda: list(arr), 'series-iter': lambda: list(sp.GeoSeries(arr)),
+              'series-tolist': lambda: sp.GeoSeries(arr).tolist()}
+    route = rng.choice(sorted(routes))
+    try:
+        els = routes[route]()
+        if len(els) != len(view):
+            out.append(V(f'array.elements-by-{route}/{kind}/count', f'{len(els)} vs {len(view)}', cs.recipe))
+        else:
+            for i, (g, v) in enumerate(zip(els, view)):
+                if (g is None) != (v is None):
+                    out.append(V(f'array.elements-by-{route}/{kind}/missingness', f'row {i}', cs.recipe))
+                    break
+                if g is None:
+                    continue
+                okq = True
+                if kind != 'point':
+                    okq = close(g.length, oracle.length(kind, v)) and close(g.area, oracle.area(kind, v) if kind in ('polygon', 'multipolygon') else 0.0, rel=0)
+                if okq and all(math.isfinite(c) for c in oracle.flat_coords(kind, v)):
+                    okq = bool(g.intersects_bounds(bx)) == bool(oracle.intersects_bounds(kind, v, eff))
+                if not okq:
+                    out.append(V(f'array.elements-by-{route}/{kind}/quantity-of-element', f'row {i} of {len(view)}', dict(cs.recipe, box=bx)))
+                    break
+    except Exception as e:
+        out.append(V(f'array.elements-by-{route}/{kind}/raises-{type(e).__name__}', f'{e}', cs.recipe))
     if len(view):
         if arr[-1] is None and view[-1] is not None:
             out.append(V(f'array.getitem-negative/{kind}', '', cs.recipe))
